@@ -70,6 +70,9 @@ def run(repo, rep):
     rule_interface(repo, rep)
     rule_pairing(repo, rep)
     rule_round5(repo, rep)
+    rule_no_tensor_rename(repo, rep)
+    rule_overwritten_options(repo, rep)
+    rule_quant_record_kept(repo, rep)
     rule_pass_order(repo, rep)
     rule_before_placement(repo, rep)
     rule_gate(repo, rep)
@@ -678,8 +681,15 @@ def rule_pass_order(repo, rep):
     for d_ in dis:
         txt = str(norm(d_))
         if "VarHandle" in txt or "ReadVariable" in txt or "CallOnce" in txt:
-            rep.ok("C11-h", site, "resource-variable operators may be hoisted (reviewed exception)", txt[:80])
+            rep.ok("C11-h", site, "VAR_HANDLE (creates the handle, no state) and CALL_ONCE (initialisation) may be hoisted (reviewed exception)", txt[:80])
             n += 1
+            # READ_VARIABLE depends, through the resource, on every ASSIGN_VARIABLE that precedes it in the source: hoisting it is only sound
+            # if the condition looks at the assignments (op_index of an AssignVariable, or a scan of the passes before it)
+            if "ReadVariable" in txt:
+                rep.check("AssignVariable" in str(norm(t)) or "AssignVariable" in "".join(str(norm(x)) for x in ast.walk(f) if isinstance(x, ast.Compare) and "op_index" in str(norm(x))),
+                          "C11-h", site, "a READ_VARIABLE pass is hoisted only if no ASSIGN_VARIABLE precedes it in the source order",
+                          f"`{txt[:90]}` hoists every READ_VARIABLE (demonstrated: VAR_HANDLE, CONV_2D, ASSIGN_VARIABLE(h, c), READ_VARIABLE(h), CUSTOM is written as "
+                          "VAR_HANDLE, READ_VARIABLE, ethos-u, ASSIGN_VARIABLE, CUSTOM: the variable is read before it is assigned)")
             continue
         quant = [c for c in ast.walk(d_) if isinstance(c, ast.Call) and call_name(c) == "all" and c.args and isinstance(c.args[0], (ast.GeneratorExp, ast.ListComp))
                  and str(norm(c.args[0].generators[0].iter)) in ("ps.inputs", "ps.ops[0].inputs", "ps.primary_op.inputs")]
@@ -777,3 +787,128 @@ def rule_round5(repo, rep):
         raise AnalysisError(f"quantisation aliases: only {n_al} found")
     rep.check(True, "C11-i", "ethosu/vela", f"{n_al} local aliases of quantisation records are read only", "")
     rep.floor("C11-i", 4)
+
+
+def rule_no_tensor_rename(repo, rep):
+    """(j) tensors that exist in the source keep their names: subgraph inputs / outputs and the operands of CPU operators are written with the name
+    the Tensor object carries, so no rewrite may assign `.name` of a tensor it did not create (tensors reached through an operator's inputs /
+    outputs / ifm / ofm). Names of operators and of freshly created / cloned tensors are free."""
+    rep.clause("C11-j", "no graph rewrite renames a tensor that exists in the source model (interface and CPU-operand names are the Tensor objects' names)")
+    n = 0
+    creators = ("Tensor", "create_const_tensor", "create_reshape_tensor", "create_lut_tensor")
+    for mname in ("tflite_graph_optimiser", "graph_optimiser_util", "lut", "softmax", "lstm", "pass_packing", "operation_util"):
+        m = repo.mod(mname)
+        for q, fn in m.functions.items():
+            if "." in q and q.split(".")[0] in m.functions:
+                continue
+            fresh = set()
+            existing = {}
+            for st in ast.walk(fn):
+                if isinstance(st, ast.Assign) and len(st.targets) == 1 and isinstance(st.targets[0], ast.Name):
+                    v = st.value
+                    if isinstance(v, ast.Call) and ((call_name(v) or "").split(".")[-1] in creators or (isinstance(v.func, ast.Attribute) and v.func.attr == "clone")):
+                        fresh.add(st.targets[0].id)
+                    elif isinstance(v, (ast.Attribute, ast.Subscript)) and re.search(r"[.](ifm2?|ofm|weights|bias|inputs\[\d+\]|outputs\[\d+\])$", str(norm(v))):
+                        existing[st.targets[0].id] = str(norm(v))
+                elif isinstance(st, ast.Assign) and isinstance(st.targets[0], ast.Tuple) and isinstance(st.value, ast.Call) and isinstance(st.value.func, ast.Attribute) and st.value.func.attr.startswith("get_ifm"):
+                    for e in st.targets[0].elts:
+                        if isinstance(e, ast.Name):
+                            existing[e.id] = str(norm(st.value))
+            for st in ast.walk(fn):
+                if isinstance(st, (ast.Assign, ast.AugAssign)):
+                    for t in (st.targets if isinstance(st, ast.Assign) else [st.target]):
+                        if isinstance(t, ast.Attribute) and t.attr == "name":
+                            base = str(norm(t.value))
+                            via_op = re.search(r"[.](ifm2?|ofm|weights|bias|inputs\[\d+\]|outputs\[\d+\])$", base) is not None
+                            via_alias = isinstance(t.value, ast.Name) and t.value.id in existing and t.value.id not in fresh
+                            if via_op or via_alias:
+                                n += 1
+                                rep.bad("C11-j", f"ethosu/vela/{mname}.py:{q}", f"`{str(norm(st))[:90]}` renames a tensor of the source graph",
+                                        "the tensor keeps its identity in the output model: when it is a subgraph output or the operand of a CPU operator it is written under the new name "
+                                        "(demonstrated: MUL + MAXIMUM rewritten to LeakyRelu: subgraph output `net/Maximum` is written as `net/LeakyRelu`)")
+                            else:
+                                rep.ok("C11-j", f"ethosu/vela/{mname}.py:{q}", f"`{str(norm(st))[:70]}` names an operator or a tensor created here")
+    rep.floor("C11-j", 12)
+
+
+def rule_overwritten_options(repo, rep):
+    """(k) an option member that the reader replaces by a derived value is written back from the reader's cache for operators that are
+    written as they are: the restore in serialise_operator must not be conditional on run_on_npu (operators placed on the NPU are never
+    written; the ones that are written run on the CPU)."""
+    rep.clause("C11-k", "option members that the reader overwrites with a derived value (depth_multiplier = 0 -> weight channels // IFM channels) are restored from the reader's cache when a CPU operator is written")
+    tm = repo.mod("tflite_mapping")
+    members = set()
+    for c in ast.walk(tm.tree):
+        if isinstance(c, ast.Call) and call_name(c) == "OptionsSerializer" and len(c.args) > 1 and isinstance(c.args[1], (ast.Tuple, ast.List)):
+            for e in c.args[1].elts:
+                if isinstance(e, ast.Constant) and isinstance(e.value, str):
+                    members.add(e.value)
+                elif isinstance(e, ast.Tuple) and e.elts and isinstance(e.elts[0], ast.Constant):
+                    members.add(e.elts[0].value)
+    if len(members) < 60:
+        raise AnalysisError(f"tflite_mapping: only {len(members)} option members found")
+    rd = repo.mod("tflite_reader")
+    po = rd.func("TFLiteSubgraph.parse_operator")
+    over = []
+    for st in ast.walk(po):
+        if isinstance(st, ast.Assign) and isinstance(st.targets[0], ast.Subscript) and str(norm(st.targets[0].value)) == "op.attrs" and isinstance(st.targets[0].slice, ast.Constant):
+            k = st.targets[0].slice.value
+            if k not in members:
+                continue
+            # a default for a missing member is not an overwrite
+            g = rd.parents.get(st)
+            missing_default = isinstance(g, ast.If) and f"'{k}' not in op.attrs" in str(norm(g.test)).replace('"', "'")
+            # an overwrite replaces a value that came from the file: the store is guarded by a test that reads the member, or the member was
+            # copied aside before (a key that merely shares its name with a member of another operator's table is not one)
+            reads_old = isinstance(g, ast.If) and re.search(r"op[.]attrs[\[]['\"]" + re.escape(k) + r"['\"][\]]", str(norm(g.test))) is not None
+            copied = any(isinstance(c_, ast.Assign) and str(norm(c_.value)).replace('"', "'") == f"op.attrs['{k}']" and c_.lineno < st.lineno for c_ in ast.walk(po))
+            if not missing_default and (reads_old or copied):
+                over.append((k, st))
+    if not over:
+        raise AnalysisError("parse_operator: no overwritten option member found (expected depth_multiplier)")
+    tw = repo.mod("tflite_writer")
+    so = tw.func("TFLiteSerialiser.serialise_operator")
+    for k, st in over:
+        # the cache: the member copied into another key before the overwrite
+        caches = [str(c_.targets[0].slice.value) for c_ in ast.walk(po) if isinstance(c_, ast.Assign) and isinstance(c_.targets[0], ast.Subscript) and str(norm(c_.targets[0].value)) == "op.attrs"
+                  and isinstance(c_.targets[0].slice, ast.Constant) and str(norm(c_.value)) in (f"op.attrs['{k}']", f'op.attrs["{k}"]') and c_.lineno < st.lineno]
+        restores = [r_ for r_ in ast.walk(so) if isinstance(r_, ast.Assign) and isinstance(r_.targets[0], ast.Subscript) and str(norm(r_.targets[0].value)) == "attrs"
+                    and isinstance(r_.targets[0].slice, ast.Constant) and r_.targets[0].slice.value == k and any(f"attrs['{c_}']" in str(norm(r_.value)).replace('"', "'") for c_ in caches)]
+        ok = False
+        detail = f"no `attrs['{k}'] = attrs[<cache>]` in serialise_operator (cache keys {caches})"
+        for r_ in restores:
+            cur = tw.parents.get(r_)
+            npu_only = False
+            while cur is not None and cur is not so:
+                if isinstance(cur, ast.If) and "run_on_npu" in str(norm(cur.test)) and r_ in list(ast.walk(ast.Module(body=cur.body, type_ignores=[]))):
+                    npu_only = True
+                cur = tw.parents.get(cur)
+            if not npu_only:
+                ok = True
+            else:
+                detail = f"`{str(norm(r_))}` is made only under `if op.run_on_npu`: an operator that is written runs on the CPU"
+        rep.check(ok, "C11-k", "ethosu/vela/tflite_writer.py:TFLiteSerialiser.serialise_operator", f"`{k}` (overwritten by the reader at `{str(norm(st))[:60]}`) is restored from the cache for every written operator",
+                  detail + " (demonstrated: a DEPTHWISE_CONV_2D that stays on the CPU with depth_multiplier = 0 is written with depth_multiplier = 2)")
+    rep.floor("C11-k", 1)
+
+
+def rule_quant_record_kept(repo, rep):
+    """(l) a tensor's quantisation record is dropped by the reader only when it is empty: every member that parse_tensor reads from the
+    file (min, max, scale, zero point) takes part in the emptiness test."""
+    rep.clause("C11-l", "the reader drops a tensor's quantisation record only if none of the members it read from the file is present")
+    pt = repo.mod("tflite_reader").func("TFLiteSubgraph.parse_tensor")
+    read = []
+    for st in ast.walk(pt):
+        if isinstance(st, ast.Assign) and isinstance(st.targets[0], ast.Attribute) and str(norm(st.targets[0].value)) == "tens.quantization" and "AsNumpy()" in str(norm(st.value)):
+            read.append(st.targets[0].attr)
+    drops = [i for i in ast.walk(pt) if isinstance(i, ast.If) and any(isinstance(x, ast.Assign) and str(norm(x)) == "tens.quantization = None" for x in i.body)]
+    if len(read) < 4 or len(drops) != 1:
+        raise AnalysisError(f"parse_tensor: members read {read}, {len(drops)} places that drop the record")
+    from ..exprnorm import conjuncts as _cj
+
+    tested = {m_ for c_ in _cj(drops[0].test) for m_ in read if str(norm(c_)) in (f"tens.quantization.{m_} is None", f"None is tens.quantization.{m_}")}
+    missing = sorted(set(read) - tested)
+    rep.check(not missing, "C11-l", "ethosu/vela/tflite_reader.py:TFLiteSubgraph.parse_tensor", f"the record is dropped only if all of {sorted(read)} are absent",
+              f"`{str(norm(drops[0].test))}` does not look at {missing}: a record that carries only min / max is dropped, and the tensor is written without quantisation "
+              "(demonstrated: float RELU model whose input carries min -1, max 2: subgraph input, output and the CPU operator's operands are written with no quantisation record)")
+    rep.floor("C11-l", 1)
